@@ -238,6 +238,21 @@ fn generate_font_internal(
     Ok((fe_root, be_root, timer))
 }
 
+/// Verification hook H3: a build that hands back both contexts, so a harness can
+/// compare in-memory values with what was persisted.
+#[cfg(feature = "verif_hooks")]
+pub mod verif {
+    use super::*;
+
+    pub fn build(
+        source: Box<dyn Source>,
+        options: &Options,
+    ) -> Result<(FeContext, BeContext), Error> {
+        let (fe, be, _timer) = generate_font_internal(source, options, JobTimer::default())?;
+        Ok((fe, be))
+    }
+}
+
 pub fn require_dir(dir: &Path) -> Result<(), Error> {
     // skip empty paths
     if dir == Path::new("") {
